@@ -12,6 +12,9 @@ pub mod link;
 pub mod c_link;
 pub mod wfa;
 pub mod c_wfa;
+pub mod qosref;
+pub mod c_qos;
+pub mod c_codec;
 
 use std::path::PathBuf;
 
@@ -45,6 +48,8 @@ pub fn main_entry() -> i32 {
     "C02" => c_link::run_c02(&args),
     "C04" => c_wtr::run_c04(&args),
     "C08" => c_api::run_c08(&args),
+    "C10" => c_qos::run_c10(&args),
+    "C14" => c_codec::run_c14(&args),
     "C20" => c_wfa::run_c20(&args),
     "C09" => c_api::run_c09(&args),
     other => {
